@@ -13,6 +13,7 @@ import (
 	"sort"
 	"strings"
 	"sync"
+	"time"
 
 	"verifharness/internal/rng"
 )
@@ -62,13 +63,16 @@ func repoDir() string {
 
 // treeKey: identifies the code under test + this binary, so that the cache is rebuilt when /repo changes.
 func treeKey() string {
+	// the crashrun binary links the marketstore packages it exercises (built from /repo's working tree with
+	// -tags verif on every check), so its content changes exactly when the code under test changes
 	h := sha1.New()
-	for _, args := range [][]string{{"rev-parse", "HEAD"}, {"diff", "HEAD"}, {"status", "--porcelain"}} {
-		out, _ := exec.Command("git", append([]string{"-C", repoDir()}, args...)...).Output()
-		h.Write(out)
-	}
 	if b, err := os.ReadFile(self()); err == nil {
 		h.Write(b)
+	} else {
+		for _, args := range [][]string{{"rev-parse", "HEAD"}, {"diff", "HEAD"}, {"status", "--porcelain"}} {
+			out, _ := exec.Command("git", append([]string{"-C", repoDir()}, args...)...).Output()
+			h.Write(out)
+		}
 	}
 	return hex.EncodeToString(h.Sum(nil))[:16]
 }
@@ -205,6 +209,27 @@ func DriverMain(prop string, args []string) int {
 	}
 	cacheDir := filepath.Join(scratch, "durab-cache", treeKey())
 	os.MkdirAll(cacheDir, 0o755)
+	// keep the cache small: only the four most recently used trees
+	if ents, err := os.ReadDir(filepath.Dir(cacheDir)); err == nil && len(ents) > 4 {
+		type de struct {
+			name string
+			mod  int64
+		}
+		var l []de
+		for _, e := range ents {
+			if fi, err := e.Info(); err == nil {
+				l = append(l, de{e.Name(), fi.ModTime().UnixNano()})
+			}
+		}
+		sort.Slice(l, func(a, b int) bool { return l[a].mod > l[b].mod })
+		for _, e := range l[4:] {
+			if e.name != filepath.Base(cacheDir) {
+				os.RemoveAll(filepath.Join(filepath.Dir(cacheDir), e.name))
+			}
+		}
+	}
+	now := time.Now()
+	os.Chtimes(cacheDir, now, now)
 	exs := make([]Explored, len(items))
 	var wg sync.WaitGroup
 	sem := make(chan struct{}, 4)
